@@ -476,7 +476,10 @@ pub fn run_case(case: &Case, stats: &mut Stats) -> RunReport {
         // it runs on a brand new thread, where thread-local leftovers do not exist either
         // (creating a thread costs milliseconds in this VM, hence the sample).
         let any_unwound = live.iter().any(|l| l.unwound);
-        let fresh = if any_unwound || (case.run + ix as u64) % 32 == 0 {
+        // help, version and documentation renders are rare and go through the most code that
+        // could keep scratch state around: their twins always get a new thread
+        let rendered = matches!(first.outcome, Outcome::Stdout(_) | Outcome::Text(_));
+        let fresh = if any_unwound || rendered || (case.run + ix as u64) % 32 == 0 {
             stats.bump("probe.twin_on_fresh_thread");
             let opts = live[p].opts.clone();
             let op2 = op.clone();
